@@ -194,7 +194,8 @@ def run(ctx):
                 key = 'R-FIFO MutexImpl::GetHead'
                 fifo = f.cta and f.cta[0] in ('true', '1')
                 reverses = any(n['k'] == 'BinaryOperator' and n['op'] == '=' and
-                               (f.sn(n['ch'][0]) or {}).get('mn') == 'next' for n in f.own_nodes())
+                               (g.sn(n['ch'][0]) or {}).get('mn') == 'next'
+                               for g in lib_core.with_helpers(fb, f) for n in g.own_nodes())
                 ctx.instance(rf, key + tag, dict(fifo=bool(fifo), reverses=reverses))
                 if bool(fifo) != reverses:
                     ctx.report(rf, key, f.where, 'GetHead %s the LIFO arrival list although FIFO=%s' % (
